@@ -44,11 +44,17 @@ def parseKind : String → Option Kind
 def showRes : Res → String
   | .ok => "ok" | .logical => "ctx" | .err k => s!"e{k}"
 
-def showFinal (ctxErr : String) : Final → String
+/-- which request's error the caller holds: the scripted servers put the request number into the error
+    message; a driver-made error (no answer: kind 8, connection closed: kind 10) carries none -/
+def showErr (kind idx : Nat) : String :=
+  if kind == 8 || kind == 10 then s!"err{kind}#?" else s!"err{kind}#{idx}"
+
+/-- `lastIdx` = number of the last request sent by this execution -/
+def showFinal (ctxErr : String) (lastIdx : Nat) : Final → String
   | .last .ok => "ok"
   | .last .logical => ctxErr
-  | .last (.err k) => s!"err{k}"
-  | .lastErr k => s!"err{k}"
+  | .last (.err k) => showErr k lastIdx
+  | .lastErr k j => showErr k j
   | .noConnections => "noconn"
   | .unknownRetryType => "unknownrt"
   | .outOfFuel => "out-of-fuel"
@@ -66,26 +72,90 @@ structure Scn where
   req : Req
   pol : Option Policy
   ctxErr : String
-  hosts : List Host
+  ids : List Nat                -- what the host selection policy offers, in order
+  us : Nat → Nat → Bool         -- usability of a host when k requests have been sent
   outcome : Nat → Res
 
+/-- environment script token `<when><act><host>`: when = `i` (before the first execution) or the number of the
+    request after which it happens; act = d (marked down) u (marked up) r (pool removed) c (pool closed)
+    k (connections lost, host unreachable) a (pool re-created and connected, host up) -/
+structure EnvTok where
+  init : Bool
+  after : Nat
+  act : Char
+  host : Nat
+
+def parseEnvTok (s : String) : Option EnvTok :=
+  let cs := s.toList
+  let (isInit, rest) := match cs with
+    | 'i' :: r => (true, r)
+    | _ => (false, cs)
+  let ds := rest.takeWhile Char.isDigit
+  let rest := rest.dropWhile Char.isDigit
+  if !isInit && ds.isEmpty then none
+  else if isInit && !ds.isEmpty then none
+  else match rest with
+    | a :: hs =>
+      if hs.isEmpty || !hs.all Char.isDigit then none
+      else match (String.ofList hs).toNat? with
+        | some h => some ⟨isInit, (String.ofList ds).toNat?.getD 0, a, h⟩
+        | none => none
+    | [] => none
+
+def actOf : Char → Option EnvAct
+  | 'd' => some .markDown | 'u' => some .markUp | 'r' => some .poolGone | 'c' => some .poolGone
+  | 'k' => some .poolGone | 'a' => some .poolBack | _ => none
+
+/-- an action counts only on a host the session knows (`id:1:…`), and `a` only on a host whose node accepts
+    connections (`id:1:1`); the harness ignores the others in the same way -/
+def envAct (hostSpecs : List String) (t : EnvTok) : Option (EnvAct × Nat) :=
+  match actOf t.act with
+  | none => none
+  | some a =>
+    let known := hostSpecs.any fun sp => match sp.splitOn ":" with
+      | [i, u, c] => i.toNat? == some t.host && u == "1" && (t.act != 'a' || c == "1")
+      | _ => false
+    if known then some (a, t.host) else none
+
 /-- one execution rendered the way the harness renders what it observed -/
-def showRun (s : Scn) (r : Run) (prevHosts : List Nat) (anySent : Bool) : String :=
+def showRun (s : Scn) (r : Run) (k0 : Nat) (prevHosts : List Nat) (anySent : Bool) : String :=
   let lat := if r.out.cnt == 0 then "0" else if anySent || !r.sent.isEmpty then "+" else "?"
   "sent=" ++ joinOr (r.sent.map fun a => s!"{a.host}@{a.cons}") ++
   s!" n={r.out.cnt} lat={lat} cons={r.out.cons} obs=" ++
   (if s.req.observed then joinOr (obsRecords prevHosts r.out.attempts) else "off") ++
-  " final=" ++ showFinal s.ctxErr r.out.final
+  " final=" ++ showFinal s.ctxErr (k0 + r.sent.length - 1) r.out.final
 
 def runScn (s : Scn) (c0 : Nat) (pre : Bool) (reps : Nat) : String :=
-  let r1 := execute s.req s.pol s.outcome 64 s.hosts 0 0 c0 pre
-  let s1 := showRun s r1 [] false
+  let r1 := execute s.req s.pol s.outcome s.us 64 s.ids 0 0 c0 pre
+  let s1 := showRun s r1 0 [] false
   if reps < 2 then s1
   else
-    let r2 := execute s.req s.pol s.outcome 64 s.hosts r1.sent.length r1.out.cnt r1.out.cons r1.ctxDone
-    s1 ++ " | " ++ showRun s r2 (r1.out.attempts.map (·.host)).reverse (!r1.sent.isEmpty)
+    let r2 := execute s.req s.pol s.outcome s.us 64 s.ids r1.sent.length r1.out.cnt r1.out.cons r1.ctxDone
+    s1 ++ " | " ++ showRun s r2 r1.sent.length (r1.out.attempts.map (·.host)).reverse (!r1.sent.isEmpty)
 
 def decoyPolicy : Policy := simplePolicy 7
+
+def exOp (kind ctor pol polAt obs ctx cons reps hosts outs env : String) : String :=
+  let hostSpecs := if hosts == "-" then [] else hosts.splitOn ","
+  match parseKind kind, parsePolicy pol, cons.toNat?, reps.toNat?, hostSpecs.mapM parseHost,
+        (if outs == "-" then some [] else (outs.splitOn ",").mapM parseRes),
+        (if env == "-" then some [] else (env.splitOn ",").mapM parseEnvTok) with
+  | some k, some p, some c0, some rp, some hs, some os, some ev =>
+    let fromSession := ctor == "s"
+    -- retry policy: session level (`s`), statement level (`q`), or statement level over a session-level decoy (`o`)
+    let sessPol : Option Policy := if polAt == "s" then p else if polAt == "o" then some decoyPolicy else none
+    let stmtPol : Option (Option Policy) := if polAt == "s" then none else some p
+    let sessObs : Option Unit := if obs == "s" || obs == "o" then some () else none
+    let stmtObs : Option (Option Unit) := if obs == "q" || obs == "o" then some (some ()) else none
+    let w0 := applyActs ((ev.filter (·.init)).filterMap (envAct hostSpecs)) hs
+    let script : Nat → List (EnvAct × Nat) := fun j => (ev.filter fun t => !t.init && t.after == j).filterMap (envAct hostSpecs)
+    let scn : Scn := {
+      req := ⟨k, (effective fromSession sessObs stmtObs).isSome⟩,
+      pol := effective fromSession sessPol stmtPol,
+      ctxErr := if ctx == "d" || ctx == "pd" then "deadline" else "canceled",
+      ids := hs.map (·.id), us := usOf w0 script, outcome := fun n => os.getD n .ok }
+    runScn scn c0 (ctx == "p" || ctx == "pd") rp
+  | _, _, _, _, _, _, _ => "bad-op"
 
 /-- the `lim` of a policy of the form `Attempts() ≤ lim` (every policy the harness uses is of that form) -/
 def limitOf (s : String) : Option Nat :=
@@ -103,23 +173,9 @@ def nextHostOnly (s : String) : Bool := s == "none" || s.startsWith "simple:" ||
 def step (_ : Unit) (ws : List String) : Unit × String :=
   ((), match ws with
   | ["ex", kind, ctor, pol, polAt, obs, _idem, _sp, ctx, cons, _api, reps, hosts, outs] =>
-      match parseKind kind, parsePolicy pol, cons.toNat?, reps.toNat?,
-            (if hosts == "-" then some [] else (hosts.splitOn ",").mapM parseHost),
-            (if outs == "-" then some [] else (outs.splitOn ",").mapM parseRes) with
-      | some k, some p, some c0, some rp, some hs, some os =>
-        let fromSession := ctor == "s"
-        -- retry policy: session level (`s`), statement level (`q`), or statement level over a session-level decoy (`o`)
-        let sessPol : Option Policy := if polAt == "s" then p else if polAt == "o" then some decoyPolicy else none
-        let stmtPol : Option (Option Policy) := if polAt == "s" then none else some p
-        let sessObs : Option Unit := if obs == "s" || obs == "o" then some () else none
-        let stmtObs : Option (Option Unit) := if obs == "q" || obs == "o" then some (some ()) else none
-        let scn : Scn := {
-          req := ⟨k, (effective fromSession sessObs stmtObs).isSome⟩,
-          pol := effective fromSession sessPol stmtPol,
-          ctxErr := if ctx == "d" || ctx == "pd" then "deadline" else "canceled",
-          hosts := hs, outcome := fun n => os.getD n .ok }
-        runScn scn c0 (ctx == "p" || ctx == "pd") rp
-      | _, _, _, _, _, _ => "bad-op"
+      exOp kind ctor pol polAt obs ctx cons reps hosts outs "-"
+  | ["ex", kind, ctor, pol, polAt, obs, _idem, _sp, ctx, cons, _api, reps, hosts, outs, env] =>
+      exOp kind ctor pol polAt obs ctx cons reps hosts outs env
   | ["spec", _kind, idem, a, nh, nreq, most, released, result] =>
       match a.toNat?, nh.toNat?, nreq.toNat?, most.toNat? with
       | some sa, some hosts, some n, some mx =>
@@ -154,7 +210,7 @@ def step (_ : Unit) (ws : List String) : Unit × String :=
       | _, _, _, _, _ => "bad-op"
   | ["kf-d10"] =>
       -- known finding KF-C13-1: the attempts do not depend on idempotence
-      let out := doQuery ⟨.query, false⟩ (some (simplePolicy 1)) (fun _ => .err 9) 10 [⟨1, true, true⟩, ⟨2, true, true⟩] 0 0 1
+      let out := doQuery ⟨.query, false⟩ (some (simplePolicy 1)) (fun _ => .err 9) (fun _ _ => true) 10 [1, 2] 0 0 1
       "attempts=" ++ ",".intercalate (out.attempts.map (toString ·.host))
   | _ => "bad-op")
 
